@@ -322,7 +322,7 @@ func (c *Corpus) Materialise(dir string) (map[int]string, error) {
 
 // ---------------------------------------------------------------- generation
 
-var nameVocab = []string{"a.go", "dir/b.txt", "x/y/Z.md", "main.c", "abc", "dir/abc.go", "aB_1.txt", "é中.md", "x/aaa.go", "README", "b/a/b.go", "AbA.c"}
+var nameVocab = []string{"a.go", "dir/b.txt", "x/y/Z.md", "main.c", "abc", "dir/abc.go", "aB_1.txt", "é中.md", "x/aaa.go", "README", "b/a/b.go", "AbA.c", "x/aß", "dir/maß"}
 var langs = []string{"Go", "Markdown", "C", "Text"}
 var repoNames = []string{"repo/a", "repo/b", "org/abc", "aBc", "x/é", "foo/bar", "foo/baz"}
 var branchNames = []string{"HEAD", "main", "dev", "release/1", "ab"}
@@ -401,6 +401,9 @@ func Gen(rng *rand.Rand, id int, p Profile) *Corpus {
 			if p.Long && rng.Intn(3) == 0 {
 				n = 95 + rng.Intn(211)
 			}
+			if rng.Intn(9) == 0 {
+				n = 0 // empty documents: no trigrams, no lines; first/last in a shard they sit at the posting-list edges
+			}
 			content := RandContent(rng, n)
 			if p.Binary && rng.Intn(12) == 0 {
 				content += "\x00x"
@@ -476,13 +479,10 @@ func (c *Corpus) PickPattern(rng *rand.Rand, fromName bool) string {
 		switch rng.Intn(6) {
 		case 0: // near miss: mutate one rune
 			p[rng.Intn(len(p))] = Alphabet[rng.Intn(len(Alphabet))]
-		case 1: // flip case of one rune
+		case 1: // another spelling of one rune: the next member of its fold orbit (a->A, ß->ẞ: the
+			// UTF-8 length may change)
 			k := rng.Intn(len(p))
-			if unicode.IsUpper(p[k]) {
-				p[k] = unicode.ToLower(p[k])
-			} else {
-				p[k] = unicode.ToUpper(p[k])
-			}
+			p[k] = OtherSpelling(p[k])
 		}
 		if strings.IndexByte(string(p), 0) >= 0 {
 			continue
@@ -490,6 +490,63 @@ func (c *Corpus) PickPattern(rng *rand.Rand, fromName bool) string {
 		return string(p)
 	}
 	return "ab"
+}
+
+// OtherSpelling: the other member of a two-member fold orbit whose members lower-case to the same
+// rune (a<->A, ß<->ẞ); for larger orbits (k/K/Kelvin, s/S/long s: property C08) the plain case flip.
+func OtherSpelling(r rune) rune {
+	f := unicode.SimpleFold(r)
+	if unicode.SimpleFold(f) == r && unicode.ToLower(f) == unicode.ToLower(r) {
+		return f
+	}
+	if unicode.IsUpper(r) {
+		return unicode.ToLower(r)
+	}
+	return unicode.ToUpper(r)
+}
+
+// PickEdgePattern returns the last (or first) 1..4 runes of a document's content or name, each rune
+// possibly replaced by the next member of its fold orbit: matches that end exactly at the end of
+// the text, with a pattern whose byte length may differ from the matched text's.
+func (c *Corpus) PickEdgePattern(rng *rand.Rand, fromName bool) string {
+	if len(c.Docs) == 0 {
+		return "ab"
+	}
+	var cand []int
+	for i := range c.Docs {
+		src := []rune(c.Docs[i].Effective())
+		if fromName {
+			src = []rune(c.Docs[i].Name)
+		}
+		if n := len(src); n > 0 && (src[n-1] >= 0x80 || src[0] >= 0x80) {
+			cand = append(cand, i)
+		}
+	}
+	d := c.Docs[rng.Intn(len(c.Docs))]
+	if len(cand) > 0 && rng.Intn(3) > 0 {
+		d = c.Docs[cand[rng.Intn(len(cand))]]
+	}
+	src := []rune(d.Effective())
+	if fromName {
+		src = []rune(d.Name)
+	}
+	if len(src) == 0 {
+		return "ab"
+	}
+	l := min(1+rng.Intn(4), len(src))
+	p := append([]rune(nil), src[len(src)-l:]...)
+	if rng.Intn(4) == 0 {
+		p = append([]rune(nil), src[:l]...)
+	}
+	for k := range p {
+		if rng.Intn(2) == 0 && p[k] != 0 {
+			p[k] = OtherSpelling(p[k])
+		}
+	}
+	if strings.IndexByte(string(p), 0) >= 0 {
+		return "ab"
+	}
+	return string(p)
 }
 
 // PickSymbolPattern returns text taken from a symbol section: the whole section, a prefix, a
